@@ -125,15 +125,20 @@ def hill_climb_mesh_extreme(
             if projected_length > PROJECTION_LENGTH_EPSILON:
                 best_idx = connected_idx
 
+    # Compare the projections themselves instead of the projection of the
+    # difference: the best projection then increases strictly in floating
+    # point arithmetic, which rules out cycles between (almost) tying vertices.
+    best_projection = search_direction.dot(
+        np.ascontiguousarray(vertices[best_idx]))
     converged = False
     while not converged:
         converged = True
         for connected_idx in connections[best_idx]:
-            vertex_diff = np.ascontiguousarray(
-                vertices[connected_idx] - vertices[best_idx])
-            projected_length = search_direction.dot(vertex_diff)
-            if projected_length > PROJECTION_LENGTH_EPSILON:
+            projection = search_direction.dot(
+                np.ascontiguousarray(vertices[connected_idx]))
+            if projection - best_projection > PROJECTION_LENGTH_EPSILON:
                 best_idx = connected_idx
+                best_projection = projection
                 converged = False
 
     return best_idx
